@@ -203,7 +203,8 @@ def run(ck):
             hist["ok"] += 1
         elif a.startswith("val"):
             hist["val"] += 1
-        distinct.add(a)
+        if not (a.startswith("ok ") and "(" not in a):
+            distinct.add(a)       # a bare leaf is trivial
         if len(samples) < 6 and i % 997 == 0:
             samples.append("%s -> impl '%s' model '%s'" % (line[:100], a[:100], m[:100]))
         if a.startswith("CRASH"):
@@ -301,7 +302,7 @@ def run(ck):
     ck.notes.append("observation: '&&' splits before '||' (x>0 && y<1 || z==2 is x>0 && (y<1 || z==2)); a comparison whose left side starts with '(' is rejected ('(x+1)>0 ? 1 : 2'); a parenthesised conditional containing parentheses before '?' is rejected; 'Cste::name' inside a conditional branch is rejected (':' search). All are rejected with an exception or rendered as parsed; conditional/logical syntax is not documented in docs/web/math.md")
     return ck.finish({
         "evaluations": len(reqs), "distinct_nontrivial": len(distinct),
-        "rule": "distinct = distinct canonical implementation answers (rendered tree / error class / value bits); every request parses a generated formula",
+        "rule": "requests = corpus + directed + seeded random formulas (type-directed trees to depth 8 printed with random redundant parentheses/white space; token mutations; values; parameter rewriting); distinct = distinct canonical implementation answers (rendered tree / error class / value bits); non-trivial = not a bare leaf",
         "exhaustive": False, "disagreements": disagreements,
         "traces_validated_against_impl": len(reqs) - hist["skipped-by-model"],
         "streams": {"corpus": len(corpus), "valid": n_valid, "malformed": n_mal, "value": n_val, "rewrite": n_q,
